@@ -20,12 +20,13 @@ type Bias struct {
 	PStop       int // percent of scenarios with a stop-scrape reason
 	PIdleOn     int
 	SmallSizes  bool // mostly small targets (many fit per shard)
+	PRecovering int  // percent of shards that run an old configuration and accept the push (two load reports per cycle)
 }
 
 // DefaultBias is the mixture used by C01.
 func DefaultBias() Bias {
 	return Bias{PUnhealthy: 20, PEmptyShard: 15, PCopies: [4]int{30, 35, 25, 10}, PInTransfer: 35,
-		MinShards: 0, MaxShards: 5, MaxTargets: 8, PStop: 10, PIdleOn: 50}
+		MinShards: 0, MaxShards: 5, MaxTargets: 8, PStop: 10, PIdleOn: 50, PRecovering: 5}
 }
 
 func pct(t *rapid.T, p int, label string) bool {
@@ -94,6 +95,7 @@ func GenShardScript(t *rapid.T, unhealthyPct int, label string) ShardSpec {
 		return s
 	}
 	s.Status2Fail = rapid.IntRange(0, 2).Draw(t, label+"-status2") == 0
+	s.FailShape = rapid.SampledFrom([]string{"", "503-error", "500-success", "500-success", "200-error", "200-garbage", "404-empty"}).Draw(t, label+"-failShape")
 	switch rapid.IntRange(0, 8).Draw(t, label+"-kind") {
 	case 0:
 		s.Ready = false
@@ -169,6 +171,9 @@ func GenReplica(t *rapid.T, b Bias, opt Options, targets []TargetSpec, prefix st
 	forcedEmpty := make([]bool, n)
 	for i := 0; i < n; i++ {
 		s := GenShardScript(t, b.PUnhealthy, fmt.Sprintf("%ss%d", prefix, i))
+		if pct(t, b.PRecovering, fmt.Sprintf("%ss%d-recovering", prefix, i)) {
+			s = ShardSpec{Ready: true, StatusOK: true, Runtime1OK: true, HashEqual: false, Push: "ok", Runtime2OK: true}
+		}
 		s.Idle = rapid.SampledFrom([]string{"expired", "fresh"}).Draw(t, fmt.Sprintf("%ss%d-idle", prefix, i))
 		forcedEmpty[i] = pct(t, b.PEmptyShard, fmt.Sprintf("%ss%d-empty", prefix, i))
 		if rapid.IntRange(0, 9).Draw(t, fmt.Sprintf("%ss%d-extraOn", prefix, i)) < 3 {
@@ -177,6 +182,9 @@ func GenReplica(t *rapid.T, b Bias, opt Options, targets []TargetSpec, prefix st
 				lim = opt.MaxProc
 			}
 			s.HeadExtra = sizeNear(t, lim, false, fmt.Sprintf("%ss%d-extra", prefix, i))
+		}
+		if !s.HashEqual && s.Push == "ok" && opt.MaxHead != 0 && rapid.Bool().Draw(t, fmt.Sprintf("%ss%d-head2On", prefix, i)) {
+			s.Head2 = sizeNear(t, opt.MaxHead, false, fmt.Sprintf("%ss%d-head2", prefix, i))
 		}
 		rs.Shards = append(rs.Shards, s)
 	}
@@ -297,5 +305,6 @@ func Gen(t *rapid.T, b Bias) *Scenario {
 		sc.Stop = "stopped by admin"
 	}
 	sc.RandSeed = int64(rapid.IntRange(1, 1<<30).Draw(t, "randSeed"))
+	sc.Wire = pct(t, 35, "wire")
 	return sc
 }
